@@ -753,23 +753,26 @@ impl Xot {
     /// assert_eq!(siblings, vec![g, e, d, c, b, a]);
     /// ```
     pub fn preceding(&self, node: Node) -> impl Iterator<Item = Node> + '_ {
-        // start with an empty iterator
-        let mut joined_iterator: Box<dyn Iterator<Item = Node>> = Box::new(std::iter::empty());
-        let mut current_parent = Some(node);
-        while let Some(parent) = current_parent {
-            let mut current_sibling = parent;
-            while let Some(current) = self.previous_sibling(current_sibling) {
-                // add descendants of previous sibling, reversed
-                // this unfortunately requires an extra allocation, as descendants
-                // is not a double iterator.
-                let descendants = Box::new(self.descendants(current).collect::<Vec<_>>());
-                let reverse_descendants = descendants.into_iter().rev();
-                joined_iterator = Box::new(joined_iterator.chain(Box::new(reverse_descendants)));
-                current_sibling = current;
-            }
-            current_parent = self.parent(parent);
-        }
-        joined_iterator
+        // Walk backwards in document order, starting at the node, one step
+        // at a time. Nothing is collected up front, so taking only the first
+        // few preceding nodes is cheap no matter how big the tree is.
+        //
+        // A reverse document order walk that starts at `node` meets each
+        // ancestor of `node` exactly once, nearest ancestor first, so it is
+        // enough to remember the one ancestor that is due next.
+        let mut next_ancestor = self.parent(node);
+        let is_normal = self.normal_node_filter();
+        ReversePreorder::new(self, node, |_| true)
+            // the node itself
+            .skip(1)
+            .filter(move |&candidate| {
+                if Some(candidate) == next_ancestor {
+                    next_ancestor = self.parent(candidate);
+                    false
+                } else {
+                    is_normal(candidate)
+                }
+            })
     }
 
     /// Traverse over node edges.
